@@ -35,6 +35,7 @@ ASSUMPTIONS = [
     "numpy.promote_types is the statement's reference for histogram-histogram arithmetic",
     "normalize / partial_normalize / merge_bins end a history (their results are checked, not expanded)",
     "overflow of int16 / float16 contents by repeated filling is out of scope (DESIGN 6)",
+    "a state whose values approach the precision of float16 (> 128) / float32 (> 2^18) is checked but not expanded further (arithmetic in that type rounds by nature)",
 ]
 BOUNDS = {"quick": "depth <= 2 from 7 start dtypes x {1D, 2D} (+ depth 3 from int64 / float32)", "thorough": "depth <= 3 everywhere, 4 from int64"}
 BUDGET = {"quick": 240, "thorough": 3000}
@@ -398,6 +399,11 @@ class DtypeSystem(H.System):
             for o, e, ob in self.values(result, c, e2):
                 vs.append(mk(o, f"{o}|{sb}|{arg}|from={cur.name}", e, ob))
         m2 = {"dtype": rdt.name, "c": tuple(c), "e2": tuple(e2), "missed": tuple(missed), "depth": m["depth"] + 1}
+        # the exact model is only valid while every value (and every later sum) is exactly representable in the
+        # current type: histories are not expanded beyond a state whose values approach a narrow float's precision
+        big = max([abs(x) for x in c + e2] + [Fraction(0)])
+        if (rdt.kind == "f" and rdt.itemsize == 2 and big > 128) or (rdt.kind == "f" and rdt.itemsize == 4 and big > 2 ** 18):
+            terminal = True
         if terminal:
             return None, vs, False
         return m2, vs, False, new_obj
